@@ -64,13 +64,13 @@ pub fn replay(case: &Value) -> Option<String> {
     compare(s, ext)
 }
 
-const TOKENS: [&str; 25] = [
+const TOKENS: [&str; 27] = [
     "a", "True", "{x}", "%p%", "~", "EX", "&", "|", "^", "=>", "<=>", "EU", "AU", "EW", "AW", "!{x}:", "@{x}:", "3{x} in %d%:", "(", ")",
-    "V{x}:", "\\forall {x} in %d%:", "\\exists {x}:", "\\bind {x} in %d%:", "\\jump {x}:",
+    "V{x}:", "\\forall {x} in %d%:", "\\exists {x}:", "\\bind {x} in %d%:", "\\jump {x}:", "AF", "EG",
 ];
-/// 25 symbols: 24 characters + the digraph "in"
-const CHARS: [&str; 25] = [
-    "a", "E", "X", "A", "U", "3", "V", "x", "_", "{", "}", "(", ")", "~", "&", "=", ">", "<", ":", "!", "@", "%", "\\", " ", "in",
+/// 30 symbols: 29 characters + the digraph "in"
+const CHARS: [&str; 30] = [
+    "a", "E", "X", "A", "U", "3", "V", "x", "_", "{", "}", "(", ")", "~", "&", "=", ">", "<", ":", "!", "@", "%", "\\", " ", "in", "F", "W", "1", "|", "G",
 ];
 
 #[derive(Default)]
@@ -262,7 +262,7 @@ pub fn run(tier: &str) -> Result<Report, String> {
     rep.sample(json!({"char_string": "3{x}in", "reference": format!("{:?}", rp::parse_str("3{x}in", true).map(|t| t.render()))}));
     rep.sample(json!({"special": special[special.len() / 2]}));
     rep.rule = format!(
-        "(a) every sequence of 1..{t} tokens over the 25-token alphabet {TOKENS:?} joined by single spaces, (b) every string of 1..{k} symbols over {CHARS:?}, (c) {} deterministic long/odd inputs (operator chains of depth 40, all pairs of binary operators, identifier shapes, unicode whitespace at every boundary); each through the plain and the extended tokenizer+parser and through the independent reference tokenizer + recursive-descent parser: accept/reject, token lists and trees must agree, and the extended parser must equal the plain one on plain formulae; distinct_nontrivial = number of distinct trees the grammar derives in the explored spaces",
+        "(a) every sequence of 1..{t} tokens over the 27-token alphabet {TOKENS:?} joined by single spaces, (b) every string of 1..{k} symbols over {CHARS:?}, (c) {} deterministic long/odd inputs (operator chains of depth 40, all pairs of binary operators, identifier shapes, unicode whitespace at every boundary); each through the plain and the extended tokenizer+parser and through the independent reference tokenizer + recursive-descent parser: accept/reject, token lists and trees must agree, and the extended parser must equal the plain one on plain formulae; distinct_nontrivial = number of distinct trees the grammar derives in the explored spaces",
         special.len()
     );
     rep.assumptions.push("the reference grammar is the one written in the README / property C05 (H* prefix, <=> < => < | < ^ < & < binary temporal < unary, all binary operators right-associative); lexical conventions (maximal-munch identifiers, E?/A? operator names, '3'/'V' alone are quantifiers, Unicode alphanumerics/whitespace) are taken from the documentation of the tokenizer".into());
